@@ -21,6 +21,9 @@ func (e StdEng) Repeat(t Tensor, axis int, repeats ...int) (Tensor, error) {
 		if err != nil {
 			return nil, err
 		}
+		if tt, err = repeatSource(tt); err != nil {
+			return nil, err
+		}
 		rr := recycledDense(t.Dtype(), newShape, WithEngine(StdEng{}))
 		return e.denseRepeat(tt, rr, newShape, newAxis, size, newRepeats)
 	default:
@@ -44,10 +47,31 @@ func (e StdEng) RepeatReuse(t Tensor, reuse Tensor, axis int, repeats ...int) (T
 		if !reuse.Shape().Eq(newShape) {
 			return nil, errors.Errorf("Reuse shape is %v. Expected shape is %v", reuse.Shape(), newShape)
 		}
+		if tt, err = repeatSource(tt); err != nil {
+			return nil, err
+		}
 		return e.denseRepeat(tt, rr, newShape, newAxis, size, newRepeats)
 	default:
 		return nil, errors.Errorf("NYI")
 	}
+}
+
+// repeatSource returns the tensor whose storage is read by denseRepeat. The copying there
+// walks the raw storage, so a tensor that needs an iterator to be read in logical order
+// (a transposed or sliced one) is materialized first, and refused if it cannot be.
+func repeatSource(tt DenseTensor) (DenseTensor, error) {
+	if !tt.RequiresIterator() {
+		return tt, nil
+	}
+	if mt, ok := tt.(MaskedTensor); ok && mt.IsMasked() && tt.DataOrder().IsContiguous() && tt.oldAP().IsZero() {
+		return tt, nil // masked but otherwise plain
+	}
+	if v, ok := tt.(View); ok && v.IsMaterializable() {
+		if m, ok := v.Materialize().(DenseTensor); ok {
+			return m, nil
+		}
+	}
+	return nil, errors.Errorf("Repeat does not support non-contiguous tensors that cannot be materialized")
 }
 
 func (StdEng) denseRepeatCheck(t Tensor, axis int, repeats []int) (newShape Shape, newRepeats []int, newAxis, size int, err error) {
